@@ -51,11 +51,11 @@ type Engine struct {
 	RepoPkgs  int
 	LoadWall  float64
 
-	implCache map[*types.Func][]*ssa.Function
-	edgeCache map[*ssa.Function][]*ssa.Function
-	callers   map[*ssa.Function][]callerSite
+	implCache    map[*types.Func][]*ssa.Function
+	edgeCache    map[*ssa.Function][]*ssa.Function
+	callers      map[*ssa.Function][]callerSite
 	fieldWriters map[*types.Var]map[*ssa.Function]int
-	astFuncs  map[*ssa.Function]*ast.FuncDecl
+	astFuncs     map[*ssa.Function]*ast.FuncDecl
 }
 
 type callerSite struct {
